@@ -23,6 +23,10 @@ class NewError(Exception):
     pass
 
 
+class PreRuntimeError(RuntimeError):
+    pass
+
+
 class PostError(Exception):
     pass
 
@@ -45,7 +49,12 @@ class StopAsyncIterationSub(StopAsyncIteration):
     pass
 
 
+class GeneratorExitSub(GeneratorExit):
+    pass
+
+
 SUBCLASS = {"StopIteration": StopIterationSub, "StopAsyncIteration": StopAsyncIterationSub}
+SUBCLASS_GE = {"GeneratorExit": GeneratorExitSub}
 
 
 class GenProxy:
@@ -87,6 +96,11 @@ def make_genfunc(prog, made, st, again=None):
     async def gen():
         if pre == "raise":
             raise mk(PreError)
+        if pre == "raisert":
+            try:
+                raise StopAsyncIteration
+            except StopAsyncIteration:
+                raise mk(PreRuntimeError)
         if pre == "noyield":
             return
         if h == "none":
@@ -181,7 +195,7 @@ def run_case(case, factory_of, subclass=False, eq=False, bare=False):
     made, st = [], {"anext": 0, "athrow": 0, "aclose": 0}
     genfunc = make_genfunc(prog, made, st, again=(None,) if bare else None)
     cmf = factory_of(genfunc)
-    blockexc = (eq_class(o) if eq else SUBCLASS[o] if subclass and o in SUBCLASS else BLOCK[o])() if o != "normal" else None
+    blockexc = (eq_class(o) if eq else SUBCLASS[o] if subclass and o in SUBCLASS else SUBCLASS_GE[o] if subclass and o in SUBCLASS_GE else BLOCK[o])() if o != "normal" else None
     obs = {"bound": None, "entered": False}
 
     async def body():
@@ -222,7 +236,7 @@ def run_case(case, factory_of, subclass=False, eq=False, bare=False):
     else:
         label = "other:" + type(exc).__name__
     if not obs["entered"]:
-        entered = "raise" if label.startswith("new:PreError") else "rt-noyield" if label == "rt-noyield" else "?"
+        entered = "raise" if label.startswith(("new:PreError", "new:PreRuntimeError")) else "rt-noyield" if label == "rt-noyield" else "?"
         nres = 0
     else:
         entered = "value" if obs["bound"] else "wrong-value"
@@ -249,7 +263,7 @@ def prog_label(got, c):
 
 def fold(label):
     """Names of the derived exception classes folded back to the class of the grammar."""
-    label = label.replace("IterationSub", "Iteration")
+    label = label.replace("IterationSub", "Iteration").replace("GeneratorExitSub", "GeneratorExit")
     return label[:-2] if label.startswith("new:") and label.endswith("Eq") else label
 
 
@@ -292,6 +306,10 @@ def check(prop, tier, seed, into=None):
         else:
             runs = [("", run_case(c, L.contextmanager))]
             if c["o"] in SUBCLASS:
+                runs.append(("(subclass)", run_case(c, L.contextmanager, subclass=True)))
+            if c["o"] == "GeneratorExit" and table[(c["prog"]["pre"], c["prog"]["h"], c["prog"]["post"], c["o"])]["stdlib"]["result"] == c["result"]:
+                # a class derived from GeneratorExit, for the programs where closing the generator and throwing into it
+                # come to the same: whichever way the library takes for it, the outcome is this one
                 runs.append(("(subclass)", run_case(c, L.contextmanager, subclass=True)))
             # (not for GeneratorExit: the closing rule of asyncstdlib is stated for the class itself -- the
             #  block outcomes of C13 -- and a derived class, which the variant needs, takes the contextlib path)
